@@ -57,11 +57,13 @@ package fasthttp
 // Storage layer of the multi-valued header part. The bodies work on []argsKV and are not verified here (trusted
 // contracts): what matters for C05 is the precondition every caller has to establish.
 //@ func setArgBytes
+//@   property C05
 //@   trusted
 //@   pure
 //@   requires[clean-key] crlffree(key, len(key))
 //@   requires[clean-value] crlffree(value, len(value))
 //@ func appendArgBytes
+//@   property C05
 //@   trusted
 //@   pure
 //@   requires[clean-key] crlffree(key, len(key))
